@@ -456,12 +456,59 @@ def tie(ctx):
                 elif noscore[0] == noscore[1] and any(shiftable_indel(genes[0], m) for a, mi in copies for m in sim.copy_variants(genes[0], a, mi)):
                     sig = "c13:score_differs_indel_in_repeat"
                 violations.append({"why": f"genotyping alignments against hg19 gives {str(outs[0])[:200]}, against hg38 {str(outs[1])[:200]}", "input": {"db": gd, "copies": copies}, "signature": sig})
+        # ---- VCF input: the same sample called against the two builds; in one of them the reference genome carries the
+        # variant base at the allele's sites (as hg19 does for CYP2D6*2): there the records are written with REF and ALT
+        # exchanged - the same genotype, to be called the same
+        import c16
+        for k in range(10 if quick else 80):
+            gd = gens[(3 * k + 1) % len(gens)]
+            genes = load_pair(gd)
+            names = [an for an, a in genes[0].alleles.items() if a.cn_config == "1" and an != "1" and a.func_muts and an in genes[1].alleles]
+            r.shuffle(names)
+            pick = None
+            for an in names:
+                mn = sorted(genes[0].alleles[an].minors)[0]
+                if mn not in genes[1].alleles[an].minors:
+                    continue
+                mss = [sorted(set(g.alleles[an].func_muts) | set(g.alleles[an].minors[mn].neutral_muts)) for g in genes]
+                if all(all(">" in m.op and len(m.op) == 3 for m in ms) and len({m.pos for m in ms}) == len(ms) for ms in mss) and len(mss[0]) == len(mss[1]):
+                    pick = (an, mn, mss)
+                    break
+            if not pick or "1" not in genes[0].alleles:
+                stats["vcf_pairs_skipped"] += 1
+                continue
+            an, mn, mss = pick
+            hom = r.random() < 0.4
+            swapped_build = r.choice([0, 1])
+            outs = []
+            for bi, (g, ms) in enumerate(zip(genes, mss)):
+                recs = []
+                for m in ms:
+                    if bi == swapped_build:
+                        recs.append((m.pos + 1, m.op[2], [m.op[0]], {"S0": "0/0" if hom else "0/1"}))
+                    else:
+                        recs.append((m.pos + 1, m.op[0], [m.op[2]], {"S0": "1/1" if hom else "0/1"}))
+                path = os.path.join(d, f"v{k}_{bi}.vcf.gz")
+                c16.write_vcf(path, recs, ["S0"])
+                yp = os.path.join(d, f"v{k}_{bi}.yml")
+                with open(yp, "w") as f:
+                    f.write(gd["yaml"])
+                try:
+                    res = genotype(yp, path, None, output_file=None, genome=g.genome)
+                    outs.append(sorted((s.get_major_diplotype(), round(s.score, 4)) for s in list(res.values())[0]))
+                except AldyException as e:
+                    outs.append("ERROR " + str(e)[:60])
+            stats["vcf_pairs"] += 1
+            if outs[0] != outs[1]:
+                violations.append({"why": f"VCF of a sample {'homozygous' if hom else 'heterozygous'} for *{an}: called {str(outs[0])[:150]} against hg19 and {str(outs[1])[:150]} against hg38 "
+                                          f"(records written with REF/ALT exchanged for {genes[swapped_build].genome})", "input": {"db": gd, "allele": an, "hom": hom, "swapped_build": swapped_build},
+                                   "signature": "c13:vcf_pair_differs"})
     finally:
         shutil.rmtree(d, ignore_errors=True)
     firstv = {}
     for v in violations:
         firstv.setdefault(v["signature"], v)
-    return {"families": fam, "violations": list(firstv.values()), "evaluations": stats["stage_pairs"] + stats["pipeline_pairs"], "distinct_nontrivial": len(distinct),
+    return {"families": fam, "violations": list(firstv.values()), "evaluations": stats["stage_pairs"] + stats["pipeline_pairs"] + stats["vcf_pairs"], "distinct_nontrivial": len(distinct),
             "rule": "pairs (hg19, hg38) of the same database - shipped (same strand, shifted coordinates), toy and generated (opposite strands, incl. a variant on the last RefSeq base) - with RefSeq-level evidence transported to both builds (planted 1-3 alleles, noise, spurious variants) through the real major and minor stages; plus alignments simulated against each build through the full pipeline; distinct by hash",
             "samples": samples, "stats": dict(stats)}
 
